@@ -153,7 +153,15 @@ func (s *Service) proxyToSingleEndpoint(ctx context.Context, w http.ResponseWrit
 
 	// We've successfully written the response
 	duration := time.Since(stats.StartTime)
-	s.RecordSuccess(endpoint, duration.Milliseconds(), int64(bytesWritten))
+	if streamErr != nil {
+		// the client went away mid-stream (context.Canceled): nothing to report to it, but not a delivered response either
+		s.RecordFailure(ctx, endpoint, duration, streamErr)
+	} else if resp.StatusCode >= http.StatusBadRequest {
+		// the backend's error answer was relayed as is: the client saw a failure, count it as one
+		s.RecordFailure(ctx, endpoint, duration, fmt.Errorf("backend returned status %d", resp.StatusCode))
+	} else {
+		s.RecordSuccess(endpoint, duration.Milliseconds(), int64(bytesWritten))
+	}
 
 	s.PublishEvent(core.ProxyEvent{
 		Type:      core.EventTypeProxySuccess,
